@@ -97,7 +97,7 @@ theorem C20_sepia_clipped (r g b : Int) :
       exact_mod_cast this
 
 /-- **C20-T6 (stretch is a monotone range map).** Over the rationals, for every image (list of pixels)
-and every request `lo ≤ hi`, `stretch` (before the final cast) is `map g` for a non-decreasing `g`
+and every request `lo ≤ hi`, `stretch` (before the final cast, including the cap at `hi`) is `map g` for a non-decreasing `g`
 that sends every pixel into `[lo, hi]` and every minimal pixel to `lo` — for constant images too
 (all pixels ↦ `lo`). The Float instance of the same definition is what the driver runs. -/
 theorem C20_stretch_spec (xs : List Rat) (lo hi : Rat) (h : lo ≤ hi) :
@@ -107,6 +107,6 @@ theorem C20_stretch_spec (xs : List Rat) (lo hi : Rat) (h : lo ≤ hi) :
 
 /-! non-vacuity -/
 example : stretchList [(3 : Rat), 7, 5, 3] (-5) 100 = [-5, 100, 95 / 2, -5] := by
-  norm_num [stretchList, minL, maxL, stretchCore]
+  norm_num [stretchList, minL, maxL, stretchCore, capHi]
 example : sepiaSpecQ 255 255 255 = [255, 255, 238] := by decide +kernel
 example : inverseDefect ≠ [] := by decide +kernel
